@@ -308,6 +308,26 @@ func c11Scenarios() []lncScen {
 				x.exchange(c2, sc2, 100)
 			}
 		}},
+		{"relay-restart", lncrun.Options{PrePaired: true}, func(s *lncrun.Session, x *lncExpect) {
+			// between two connections the relay process restarts and loses
+			// the session's mailboxes: the parties have to create them
+			// again and a fresh working connection is handed out
+			s.Serve()
+			c, sc := x.connect(1)
+			if c == nil {
+				return
+			}
+			x.exchange(c, sc, 100)
+			c.Close("script")
+			x.check("the peer of a closed connection goes down", sc.AwaitDown(30*time.Second))
+			time.Sleep(500 * time.Millisecond)
+			s.Rec.Emit("relayFault", "what", "restart")
+			s.Relay.Restart()
+			c2, sc2 := x.connect(2)
+			if c2 != nil {
+				x.exchange(c2, sc2, 100)
+			}
+		}},
 		{"server-closes-during-handshake", lncrun.Options{}, func(s *lncrun.Session, x *lncExpect) {
 			// act 3 of the pairing handshake never arrives: the client keeps
 			// the server's key, the server never learns the client's
